@@ -74,3 +74,33 @@ def no_shocks_contract(k, inst):
         else:
             k.ensures("upper-bound", L.forall(red, lambda q: entry(None, q) <= v))
             k.ensures("attained", L.exists(red, lambda q: L.eq(entry(None, q), v)))
+
+
+def _skel_family(tier):
+    from .skeletons import skeletons
+
+    return skeletons(tier)
+
+
+@contract("lcm.discrete_problem._determine_dense_discrete_choice_axes", family=_skel_family, props=("C05", "C10", "C01"))
+def dense_choice_axes_contract(k, skel):
+    """(statement of C05) in the array of conditional continuation values -- axes [joint axis of restricted
+    variables, if any] + unrestricted discrete states + unrestricted discrete choices + continuous states --
+    the returned positions are exactly those of the unrestricted discrete choices (None if there are none);
+    the simulation variant counts from the agent axis."""
+    from .bellman import Layout
+    from .skeletons import build
+
+    b = build(k, skel)
+    im = k.call_fn(k.fn("lcm.input_processing.process_model.process_model"), b.model)
+    if isinstance(im, Raised):
+        k.fail("model-processed", repr(im))
+        return
+    lay = Layout(skel)
+    axes = (["__sparse__"] if (lay.RS or lay.RC) else []) + lay.DS + lay.DC + lay.CS
+    want = tuple(i for i, a in enumerate(axes) if a in lay.DC) or None
+    out = k.call(im.variable_info)
+    k.ensures("positions-of-unrestricted-discrete-choices", (not isinstance(out, Raised)) and out == want)
+    sim = k.call_fn(k.fn("lcm.simulate.determine_discrete_dense_choice_axes"), im.variable_info)
+    want_sim = tuple(range(1, len(lay.DC) + 1)) or None
+    k.ensures("simulation-positions-after-the-agent-axis", (not isinstance(sim, Raised)) and sim == want_sim)
